@@ -16,13 +16,13 @@ EXTRA = {
  'C02': " Draws from dry sources whose mass is below the storage resolution of a gram; a single source well written as a one-element list.",
  'C03': " Decimal capacities (every tenth of a uL up to 50 uL and of a mL up to 50 mL) filled exactly at construction, by fill_to and by transfer; 47 two-step recipes whose second step fits only on the vessel as the first step left it, and dilutions of one liquid with another: the recipe accepts / refuses what the container operations do.",
  'C04': " Refused create_solution_from / dilute / start_stage calls inside programs; every action on a world whose objects were looked at (all read-only queries) versus one that was not; every tracking query of every baked program of <= 2 steps asked twice with the others in between.",
- 'C05': " Level 'short-container': a quarter more solvent than a solvent container holds (must be refused).",
+ 'C05': " Container solvents are preceded by a same-named decoy of another composition. Level 'short-container': a quarter more solvent than a solvent container holds (must be refused).",
  'C06': " Every spelling of a specific activity makes the same enzyme; the configured default densities are the ones in force.",
  'C09': " The enzyme is also asked for in mg, uL and mU.",
  'C10': " The wells a view addresses come from the independent resolver; observers also through a sub-slice of a strided slice.",
  'C11': " Mixtures whose parts measure exactly the same in one unit (equimolar solutes, equal volumes).",
- 'C12': " A stock that holds a twin of the solute as bystander; requests for a twin of what the stock holds must be refused.",
- 'C13': " Zero and negative slice bounds; lists refused at a later element; every judged list preceded by an accepted and a refused list; a list used (remove) and read again.",
+ 'C12': " Every other solute of the stock is asked for before the judged call. A stock that holds a twin of the solute as bystander; requests for a twin of what the stock holds must be refused.",
+ 'C13': " Every judged selector is first put to a decoy plate with reversed labels; a list argument comes back unchanged. Zero and negative slice bounds; lists refused at a later element; every judged list preceded by an accepted and a refused list; a list used (remove) and read again.",
  'C14': " Molarity strings are no quantities at 12 entry points; quantities of another kind are no capacities; v/v spellings through dilute / create_solution_from directly and as recipe steps.",
  'C19': " Recipe create_solution steps over every ordered pair / triple of solutes: names listed in the order of the per-solute values.",
 }
